@@ -133,13 +133,14 @@ P("C14", [("K1", r"^k1_(c_ui|l_universe)"), ("V9", None)],
   "generalize_ty, InferenceValue::unify_values (reference patterns in Verus; Clone glue blow-up in Kani).",
   "contract-based deductive verification: Kani full-domain function contracts + Verus on extracted text")
 
-P("C11", [("K12", r"_q"), ("V5", None), ("V4", None)],
+P("C11", [("K12", r"_q"), ("V5", None), ("V4", None), ("V19", None)],
   "model_checking",
   "Partial (first sentence, function-level links): Kani runs the real make_solution on every answer stream up to the bound that contains an interruption and shows the result is "
   "always Some(Ambig(_)) — never Unique, never 'no solution'; Verus proves the SLG stream reports QuantumExceeded only when the caller's callback returned false, and that an "
   "interrupted iteration of the recursive solver returns Ambig(Unknown) without touching the solver state. BOUNDED (stream length <= 2/3) for make_solution; Verus parts unbounded.",
-  "Not reached: the second sentence (later solves equal a fresh solver) is a history property (see C10). Note: the recursive solver's interrupted Ambig(Unknown) is a value its caller may cache; "
-  "whether that is a defect is a history question this family cannot decide.",
+  "Second sentence: decided for one mechanism only — Verus unit V19 states that solve_goal never makes an answer permanent while the callback says stop; this is REFUTED on the pinned tree "
+  "(genuine defect, recorded in known_findings.json with a failing input: the recursive solver with its cache returns the cached interrupted `Ambiguous` to every later solve). "
+  "The SLG side of the second sentence (tables persisting across interrupted solves) is a history property and is not reached (see C10).",
   "contract-based verification: Kani harness contract over enumerated streams + Verus on extracted text")
 
 P("C01", [("K12", None), ("V1", None), ("V3", None)],
